@@ -34,6 +34,34 @@ CFG = {
         "key_from_seed round trips against LocalKey::from_seed (public / secret bytes, JWK, thumbprint, cross sign / verify), a NULL-handle and "
         "NULL-out sweep over 33 synchronous key / list accessors, string-list count, askar_version, askar_set_max_log_level, and "
         "askar_get_current_error after every kind of failure (the slot must hold the last reported error) and with a NULL out-pointer (child process).  "
+        "Coverage-gap families (appended after the 300 sequences; ids 300..): (a) 30 key-operation cases over a pool of generated keys "
+        "(x25519 x2, ed25519, an AEAD key, two EC keys of one curve, now and then AES-KW and a second AEAD key): one op per entry point "
+        "askar_key_from_jwk / from_public_bytes / from_secret_bytes / convert / from_key_exchange / aead_get_params / aead_get_padding / "
+        "aead_encrypt / aead_decrypt / wrap_key / unwrap_key / crypto_box / crypto_box_open / crypto_box_seal / crypto_box_seal_open / "
+        "derive_ecdh_es / derive_ecdh_1pu, each twinned with the same LocalKey / kms call on the same bytes (deterministic results compared by "
+        "value incl. EncryptedBuffer positions, randomised ones by a round trip through the OTHER API; decrypting ops refer to the op that "
+        "encrypted and apply one of 13 mutations: flipped ct / tag / nonce / aad, tag or nonce one byte short / long / absent, tag appended to "
+        "the ciphertext); messages of length 0,1,15,16,17,31,32,33,64,300; bad-argument stream: NULL key handle (8 %), NULL out (4 %), key of the "
+        "wrong type, algorithm NULL / empty / unknown / not UTF-8 / with an astral character / 65 bytes long, wrong nonce and key lengths, "
+        "ByteBuffer{len>0,data=NULL}, msg_len negative / i64::MIN / i64::MAX, and three probes with len = -1 (forbidden by the header: any error "
+        "code, no crash); askar_buffer_free of NULL buffers and of results; askar_key_free(NULL).  (b) 8 copy cases (populated file store with "
+        "1-2 profiles, items with tags, a stored key -> askar_store_copy to a new file with raw / kdf:argon2i:int / none, recreate 0/1; dump of "
+        "source and copy through the C API against the Rust twin and against each other; the copy is independent; opens with its key only; copy "
+        "onto the existing target with recreate 1 / 0+same key / 0+other key; NULL target, bad method, no callback, bad / closed handle, malformed "
+        "raw key, unsupported scheme), 8 remove cases (askar_store_remove of an existing / missing / still-open store, in-memory URI, NULL, "
+        "not UTF-8, unsupported scheme, a directory -> Backend; provision onto an existing file with recreate=0 and the same / another key / "
+        "another method; provision error arms: malformed and missing raw key, missing password, bad method, bad URI parameter, missing "
+        "directory), 4 migration cases (the shipped Indy fixture askar-storage/tests/indy_wallet_sqlite.db through askar_migrate_indy_sdk: valid, "
+        "wrong key, wrong kdf, malformed key, missing file, each string NULL, no callback, a second migration of the migrated file; the migrated "
+        "file must open under the wallet key and dump like the twin's).  (d) 6 Busy cases: on a file store of its own (busy_timeout 250 ms) a "
+        "session / scan / store handle is closed with nothing waited for after a call on it was issued (an insert held up by another "
+        "transaction's write lock, or a fetch_all / scan_next over 120 rows of 16 KiB); observed (code of the call, code of the close, code of a "
+        "later use) must be an outcome of the interleaving model.  (c) 8 logger cases, each in a child process: askar_set_custom_logger with "
+        "enabled / flush callbacks NULL and non-NULL at levels 5, 4, 3, 0, -1 and an invalid one, a second installation, "
+        "askar_set_default_logger after and before, a campaign (provision, record with secret value and tags, filter, stored keys of three "
+        "types, AEAD, re-key to a raw key and to a password, open with the right and a wrong password) whose every record (target, message, "
+        "module, file) is scanned for the pass keys, passwords, record value, tag value and key material in raw / hex / base64 / base58 / "
+        "Debug-list form, flush through log::logger(), askar_clear_custom_logger, then no further record.  "
         "non-trivial: >= 8 ops, >= 1 callback that delivered data or a handle, and >= 1 op that ended in an error code (bad handle, "
         "malformed argument or library error).  distinct = hash of the case"
     ),
@@ -46,7 +74,16 @@ CFG = {
         "close / free of a session or scan handle that is not in the registry is a documented no-op (Success); every *use* of such a handle "
         "must report an error",
         "the counter does not wrap: fewer than 2^64 handles are issued in the life of a process (hypothesis of handles_never_reused)",
-        "Busy on removal while a handle is borrowed, and tokio scheduling, are runtime behaviour outside the sequential model (partial)",
+        "Busy on removal while a handle is borrowed depends on tokio scheduling: the observed (call, close, later use) triple is handed to the "
+        "model (model_input) and must be one of the outcomes of its interleaving model (Model/FfiEntry.lean cstep / closeRaceOutcomes); which "
+        "of them occurs is not predicted",
+        "key material, ciphertexts, JWK and URI parsing are not modelled here (C08, C11-C15): for the key operations and for literal URIs the "
+        "model is told the Rust API's verdict on the same arguments (model_input tw[i] = ok / ErrorKind) and predicts the C return code from "
+        "its own argument checks (order as in the source) composed with that verdict; AEAD parameters, padding and EncryptedBuffer layout it "
+        "computes itself; whether the wallet key opens the Indy fixture is a fact of the fixture (taken from the twin)",
+        "the shipped Indy fixture holds no items (an empty wallet): record-level migration is C18's",
+        "askar_buffer_free: only NULL / empty / real buffers are freed once (double free is outside the header's contract); that the freed "
+        "block is wiped cannot be observed here (C20's instrumented allocator)",
         "freed list / key pointers and negative ByteBuffer lengths are outside the header contract and never generated",
         "three repaired sites are modelled in both variants and selected by flags that tools/extract.py reads from the source "
         "(Generated/Flags.lean passKeyAsRefKeepsNone, ffiOrderByErrorRecorded, ffiCurrentErrorChecksOut; like ffiTagKeysOwned, ffiRawKeyChecksOut): "
@@ -55,17 +92,14 @@ CFG = {
         "regenerated by tools/extract.py",
         "raw-key validity (base58, 32 bytes) is decided in the model by membership in the generator's table of three valid keys; key material, "
         "JWK and signatures are not modelled here (C11/C13/C14): key ops are compared with the Rust API by the oracle, the model gives the status",
-        "entry points NOT called by this check: askar_key_aead_encrypt, askar_key_aead_decrypt, askar_key_aead_get_padding, askar_key_aead_get_params, "
-        "askar_key_convert, askar_key_crypto_box, askar_key_crypto_box_open, askar_key_crypto_box_seal, askar_key_crypto_box_seal_open, "
-        "askar_key_derive_ecdh_1pu, askar_key_derive_ecdh_es, askar_key_from_jwk, askar_key_from_key_exchange, askar_key_from_public_bytes, "
-        "askar_key_from_secret_bytes, askar_key_unwrap_key, askar_key_wrap_key (crypto arguments: C12-C15 test the Rust side), askar_store_copy, "
-        "askar_store_remove, askar_migrate_indy_sdk (C18), askar_set_custom_logger, askar_set_default_logger, askar_clear_custom_logger "
-        "(process-global, one-shot), askar_terminate (shuts the runtime down for the rest of the process)",
+        "entry points NOT called by this check: askar_terminate (shuts the runtime down for the rest of the process); error code Custom is "
+        "not producible through the C API of this build (no code path constructs ErrorKind::Custom)",
     ],
     "trusted_base": [
         "harness/src/c19/ffi.rs: extern \"C\" declarations (transcribed from src/ffi/*.rs / include/libaries_askar.h) and the callback recorder",
         "harness/src/c19/exec.rs: the twin store driven through aries_askar::Store, the oracle's own bookkeeping of live handles, the "
         "classification of arguments as valid / malformed; harness/src/c19/json.rs: the order-preserving JSON reader for tag-set texts",
+        "harness/src/c19/exec/keyops.rs, storeops.rs: the LocalKey / Store / migration twins, the logger child; /repo/askar-storage/tests/indy_wallet_sqlite.db",
         "lean/Driver/C19.lean: JSON protocol, the world (stores, sessions, scans, lists) on top of Model/Store.lean",
     ],
 }
